@@ -1,4 +1,2461 @@
 package main
 
-// genFilterDispatch: placeholder until the translation of this part of the library is written (an empty generated file).
-func genFilterDispatch() string { return "" }
+// Translation of the column-level filter dispatch into Gallina (coq/Gen/GenFilterDispatch.v, tie T1 for the part
+// of QFrame.Filter that lies between the clause tree (filterclause.go) and the loop kernels (kernels.go)):
+//
+//	qframe.go                         isOrderComparator, unknownCol, QFrame.filter
+//	internal/strings/convert.go       InterfaceSliceToStringSlice
+//	internal/icolumn/column.go        intComp, interfaceSliceToIntSlice, newIntSet, Column.FloatSlice,
+//	                                  Column.filterBuiltIn, Column.Filter
+//	internal/fcolumn, bcolumn, scolumn/column.go      Column.filterBuiltIn, Column.Filter
+//	internal/ecolumn/column.go        equalTypes, Column.filterBuiltIn, Column.Filter
+//
+// Each function is translated statement by statement into a definition gd_<pkg letter>_<name>;
+// coq/Proofs/GenFilterDispatchProofs.v proves each equal to the hand-written model of coq/Model/Filter.v
+// (col_filter, filter_leaf, filter_leaves), so that an edit of one of these Go functions changes the generated
+// text and breaks a named theorem T1_filterdisp_<name> of coq/Properties/T1FilterDispatch.v.
+//
+// THE SCHEME (anything that does not fit is reported through problem(...); the block then keeps the text of the
+// golden copy, marked FALLBACK, so that the development still builds — the exit status says the tie is broken).
+//
+//	boundary    The loop kernels are NOT translated here (they are the deep-embedded terms of Gen/GenKernels.v).
+//	            A comparator table  var T = map[string]func(..){..}  is the association list of Gen/GenTables.v;
+//	            f, ok := T[k] is gd_lookup (gd_assoc k t_..) and gives the NAME of the function (the empty name
+//	            for a missing key: the nil function).  Calling such a value,  f(a, b, ..), is the section variable
+//	            tbl_<pkg letter>_<T> f a b ..  (the function of that name in that package applied to the
+//	            arguments).  The methods filterCustom1, filterCustom2 and filterWithBitset are kernels too:
+//	            c.filterCustom1(..) is the section variable k_<pkg letter>_filterCustom1 <fields of c> ...
+//	            The types of these variables are derived from the Go function types.
+//	results     every function answers outcome (r1, .., rn, b1, .., bm): the Go results followed by the final
+//	            contents of every parameter of type index.Bool, in parameter order (a slice the callee stores
+//	            into is value-result; the caller rebinds the variable it passed, which must be a variable).
+//	            Panic = Go panic.  The same convention holds for the section variables of the boundary.
+//	fuel        newIntSet calls itself: it is a Fixpoint on (fuel : nat), O => Panic.  Every function from which
+//	            it can be reached takes fuel as first argument and hands it on unchanged.  Loops need no fuel:
+//	            all of them range over a slice.
+//	interface{} gd_any: one constructor per dynamic type the translated code distinguishes (gdAnyTypes below)
+//	            and gd_any_other for a value of any other type; a type switch / type assertion is a match.
+//	            v, ok := x.(T) is  let '(v, ok) := match x with C y => (y, true) | _ => (zero, false) end.
+//	            A value of static type T stored into an interface{} is wrapped in its constructor; a column
+//	            stored into interface{} goes through gd_col_any (nil stays nil).
+//	columns     column.Column is the closed sum gd_column of the five column types (gd_col_nil = nil interface);
+//	            a struct Column{data ..} is passed as its fields (c_data ..); scolumn.Column is the abstract SC.
+//	            x.Filter(..) with x of interface type is the dispatcher gd_Column_Filter (Panic for nil).
+//	            namedColumn is represented by its embedded Column (no other field may be touched).
+//	            fcolumn.New(d) (text-matched) is the struct with data = d.
+//	frames      QFrame is the abstract F: qf.Err, qf.index, qf.withErr, qf.withIndex as in filterclause.go, and
+//	            qf.columnsByName[k] -> gd_lookup (qf_columnsByName qf k) gd_col_nil.
+//	            index.NewBool and Int.Filter are the translated gc_NewBool and gc_Int_Filter of GenFilterClause.v.
+//	filter      filter.Filter is the generated Record gd_Filter; a variable of that type is held as its fields.
+//	errors      error -> option E; qerrors.New(op, format, params..) -> Some (new_error op format): the
+//	            parameters of the message are NOT part of the translation (they may only be variables or
+//	            reflect.TypeOf(variable)); qerrors.Propagate(op, err) -> Some (propagate op err);
+//	            fmt.Sprintf(format, strings..) -> sprintf format [strings].
+//	numbers     int -> Z (exact; overflow is outside the translation as it is outside the model); float64 is the
+//	            abstract FT with math.IsNaN -> f_isnan, int(x) -> f_toint, float64(i) -> i_tofloat;
+//	            enumVal -> N with enumVal(i) = gd_enumVal i (mod 256).
+//	sets        intSet (map[int]struct{}) is the list of the keys in insertion order: make -> [], s[k] = struct{}{}
+//	            -> gd_set_add (append); only kernels read it.  qfstrings.NewStringSet(l) -> new_string_set l : SS.
+//	slices      []T -> list T (nil = []); make([]T, len(x)) -> repeat zero; s[i] -> gd_index; s[i] = v -> gd_update.
+//	control     statements are translated in continuation style.  An if / type switch that contains a return
+//	            continues inside its (at most one) branch that falls through; when several branches can fall
+//	            through it is bound as a sum:  do r <- (..); match r with inr v => return v | inl vars => rest.
+//	            An if / switch without return answers the outer variables it assigns.
+//	            for i, v := range X: Definition <f>_loopN := fix loop (l : list T) (v_i : Z) (variables) {struct l};
+//	            when the body stores into X the element is read as X[i] in the current X (Go reads the backing
+//	            array); a loop with a return inside continues with the rest of the function at its exit.
+//	            a && b / a || b are andb / orb, or if-then-else when b has to be bound.
+//	            a variable declared in an inner scope under the name of a visible one gets a fresh name.
+//	rejected    for with a condition, break, continue, goto, labels, expression switch, defer, closures, stores
+//	            through pointers, everything else.
+
+import (
+	"flag"
+	"fmt"
+	"go/ast"
+	"go/token"
+	"os"
+	"path/filepath"
+	"strconv"
+	"strings"
+)
+
+const gdRoot = "."
+const gdStrPkg = "internal/strings"
+
+var gdColPkgs = []string{"internal/icolumn", "internal/fcolumn", "internal/bcolumn", "internal/scolumn", "internal/ecolumn"}
+
+func gdLetter(pkg string) string {
+	switch pkg {
+	case gdRoot:
+		return "q"
+	case gdStrPkg:
+		return "str"
+	}
+	b := filepath.Base(pkg)
+	return b[:1]
+}
+
+type gdSpec struct{ pkg, fn string }
+
+var gdSpecs = []gdSpec{
+	{gdStrPkg, "InterfaceSliceToStringSlice"},
+	{"internal/icolumn", "intComp"}, {"internal/icolumn", "interfaceSliceToIntSlice"}, {"internal/icolumn", "newIntSet"},
+	{"internal/icolumn", "Column.FloatSlice"}, {"internal/icolumn", "Column.filterBuiltIn"}, {"internal/icolumn", "Column.Filter"},
+	{"internal/fcolumn", "Column.filterBuiltIn"}, {"internal/fcolumn", "Column.Filter"},
+	{"internal/bcolumn", "Column.filterBuiltIn"}, {"internal/bcolumn", "Column.Filter"},
+	{"internal/scolumn", "Column.filterBuiltIn"}, {"internal/scolumn", "Column.Filter"},
+	{"internal/ecolumn", "equalTypes"}, {"internal/ecolumn", "Column.filterBuiltIn"}, {"internal/ecolumn", "Column.Filter"},
+	{gdRoot, "isOrderComparator"}, {gdRoot, "unknownCol"}, {gdRoot, "QFrame.filter"},
+}
+
+// methods of Column that are kernels (Gen/GenKernels.v): section variables
+var gdKernelMethods = []string{"filterCustom1", "filterCustom2", "filterWithBitset"}
+
+// the text the fixed vocabulary stands for (printed by go/printer)
+var gdVocabulary = []struct{ pkg, fn, text string }{
+	{gdRoot, "QFrame.withErr", "func (qf QFrame) withErr(err error) QFrame {\n\treturn QFrame{Err: err, columns: qf.columns, columnsByName: qf.columnsByName, index: qf.index}\n}"},
+	{gdRoot, "QFrame.withIndex", "func (qf QFrame) withIndex(ix index.Int) QFrame {\n\treturn QFrame{Err: qf.Err, columns: qf.columns, columnsByName: qf.columnsByName, index: ix}\n}"},
+	{"internal/index", "Int.Len", "func (ix Int) Len() int {\n\treturn len(ix)\n}"},
+	{"internal/index", "Bool.Len", "func (ix Bool) Len() int {\n\treturn len(ix)\n}"},
+	{"internal/index", "NewBool", "func NewBool(size int) Bool"},
+	{"internal/index", "Int.Filter", "func (ix Int) Filter(bIx Bool) Int"},
+	{"qerrors", "New", "func New(operation, reason string, params ...interface{}) Error {\n\treturn Error{operation: operation, reason: fmt.Sprintf(reason, params...)}\n}"},
+	{"qerrors", "Propagate", "func Propagate(operation string, err error) Error {\n\treturn Error{operation: operation, source: err}\n}"},
+	{"internal/fcolumn", "New", "func New(d []float64) Column {\n\treturn Column{data: d}\n}"},
+	{gdStrPkg, "NewStringSet", "func NewStringSet(input []string) StringSet"},
+}
+
+// the type declarations the fixed vocabulary stands for
+var gdTypeDecls = []struct{ pkg, name, text string }{
+	{gdRoot, "namedColumn", "struct {\n\tcolumn.Column\n\tname\tstring\n\tpos\tint\n}"},
+	{"types", "ColumnName", "string"},
+	{"internal/ecolumn", "enumVal", "uint8"},
+	{"internal/icolumn", "intSet", "map[int]struct{}"},
+	{"internal/index", "Int", "[]uint32"},
+	{"internal/index", "Bool", "[]bool"},
+}
+
+// ------------------------------------------------------------------ types
+
+type gdT struct {
+	k    string // see coq()
+	pkg  string // struct, kfun
+	name string // struct: type name; kfun: table variable
+}
+
+func gdK(k string) *gdT { return &gdT{k: k} }
+
+var gdBad = gdK("bad")
+
+func (t *gdT) same(u *gdT) bool { return t.k == u.k && t.pkg == u.pkg && t.name == u.name }
+
+func (t *gdT) coq() string {
+	switch t.k {
+	case "int":
+		return "Z"
+	case "bool":
+		return "bool"
+	case "string", "kfun":
+		return "bytes"
+	case "float":
+		return "FT"
+	case "enumval":
+		return "N"
+	case "id":
+		return "A"
+	case "ids":
+		return "(list A)"
+	case "bools", "boolvals":
+		return "(list bool)"
+	case "ints", "iset":
+		return "(list Z)"
+	case "floats":
+		return "(list FT)"
+	case "strings":
+		return "(list bytes)"
+	case "anys":
+		return "(list gd_any)"
+	case "enumvals":
+		return "(list N)"
+	case "any":
+		return "gd_any"
+	case "err":
+		return "(option E)"
+	case "col":
+		return "gd_column"
+	case "scol":
+		return "SC"
+	case "sset":
+		return "SS"
+	case "bitset":
+		return "BS"
+	case "fn1":
+		return "FN1"
+	case "fn2":
+		return "FN2"
+	case "frame":
+		return "F"
+	case "filters":
+		return "(list gd_Filter)"
+	case "struct":
+		if st := gdStructOf(t); st != nil {
+			var fs []string
+			for _, f := range st.fields {
+				fs = append(fs, f.ty.coq())
+			}
+			return gdTypeTuple(fs)
+		}
+	}
+	return "?"
+}
+
+func (t *gdT) elem() *gdT {
+	switch t.k {
+	case "ids":
+		return gdK("id")
+	case "bools", "boolvals":
+		return gdK("bool")
+	case "ints":
+		return gdK("int")
+	case "floats":
+		return gdK("float")
+	case "strings":
+		return gdK("string")
+	case "anys":
+		return gdK("any")
+	case "enumvals":
+		return gdK("enumval")
+	case "filters":
+		return &gdT{k: "struct", pkg: "filter", name: "Filter"}
+	}
+	return nil
+}
+
+func (t *gdT) zero() (string, bool) {
+	switch t.k {
+	case "int":
+		return "0", true
+	case "bool":
+		return "false", true
+	case "string", "kfun":
+		return "(@nil N)", true
+	case "enumval":
+		return "0%N", true
+	case "float":
+		return "(i_tofloat 0)", true
+	case "ids", "bools", "boolvals", "ints", "iset", "floats", "strings", "anys", "enumvals", "filters":
+		return "[]", true
+	case "any":
+		return "gd_any_nil", true
+	case "err":
+		return "None", true
+	case "col":
+		return "gd_col_nil", true
+	}
+	return "", false
+}
+
+type gdField struct {
+	name string
+	ty   *gdT
+}
+
+type gdStruct struct {
+	pkg, name string
+	fields    []gdField
+}
+
+var gdStructs map[string]*gdStruct
+
+func gdStructOf(t *gdT) *gdStruct {
+	if t.k != "struct" {
+		return nil
+	}
+	return gdStructs[t.pkg+":"+t.name]
+}
+
+// zeros of a struct's fields
+func gdStructZero(t *gdT) ([]string, bool) {
+	st := gdStructOf(t)
+	if st == nil {
+		return nil, false
+	}
+	var out []string
+	for _, f := range st.fields {
+		z, ok := f.ty.zero()
+		if !ok {
+			return nil, false
+		}
+		out = append(out, z)
+	}
+	return out, true
+}
+
+func gdTuple(parts []string) string {
+	if len(parts) == 0 {
+		return "tt"
+	}
+	if len(parts) == 1 {
+		return parts[0]
+	}
+	return "(" + strings.Join(parts, ", ") + ")"
+}
+
+func gdTypeTuple(parts []string) string {
+	if len(parts) == 0 {
+		return "unit"
+	}
+	if len(parts) == 1 {
+		return parts[0]
+	}
+	return "(" + strings.Join(parts, " * ") + ")"
+}
+
+// gdResolve maps a Go type expression (source text) of package pkg to a translation type
+func gdResolve(pkg, src string) *gdT {
+	switch src {
+	case "int":
+		return gdK("int")
+	case "bool":
+		return gdK("bool")
+	case "string":
+		return gdK("string")
+	case "float64":
+		return gdK("float")
+	case "error":
+		return gdK("err")
+	case "interface{}":
+		return gdK("any")
+	case "[]int":
+		return gdK("ints")
+	case "[]float64":
+		return gdK("floats")
+	case "[]string":
+		return gdK("strings")
+	case "[]bool":
+		return gdK("boolvals")
+	case "[]interface{}":
+		return gdK("anys")
+	case "index.Int":
+		return gdK("ids")
+	case "index.Bool":
+		return gdK("bools")
+	case "qfstrings.StringSet":
+		return gdK("sset")
+	case "column.Column":
+		return gdK("col")
+	}
+	switch pkg {
+	case gdRoot:
+		switch src {
+		case "QFrame":
+			return gdK("frame")
+		case "...filter.Filter", "[]filter.Filter":
+			return gdK("filters")
+		case "filter.Filter":
+			return &gdT{k: "struct", pkg: "filter", name: "Filter"}
+		case "namedColumn":
+			return gdK("col")
+		case "types.ColumnName":
+			return gdK("string")
+		}
+		for _, cp := range gdColPkgs {
+			if src == filepath.Base(cp)+".Column" {
+				return gdResolve(cp, "Column")
+			}
+		}
+	case "internal/scolumn":
+		if src == "Column" {
+			return gdK("scol")
+		}
+	}
+	if src == "Column" {
+		if _, ok := gdStructs[pkg+":Column"]; ok {
+			return &gdT{k: "struct", pkg: pkg, name: "Column"}
+		}
+	}
+	if pkg == "internal/icolumn" && src == "intSet" {
+		return gdK("iset")
+	}
+	if pkg == "internal/ecolumn" {
+		switch src {
+		case "enumVal":
+			return gdK("enumval")
+		case "[]enumVal":
+			return gdK("enumvals")
+		case "*bitset":
+			return gdK("bitset")
+		}
+	}
+	if el, ok := gdFnElem[pkg]; ok {
+		switch src {
+		case "func(" + el + ") bool":
+			return gdK("fn1")
+		case "func(" + el + ", " + el + ") bool":
+			return gdK("fn2")
+		}
+	}
+	return gdBad
+}
+
+// element type of the custom predicates of a column package
+var gdFnElem = map[string]string{"internal/icolumn": "int", "internal/fcolumn": "float64", "internal/bcolumn": "bool",
+	"internal/scolumn": "*string", "internal/ecolumn": "*string"}
+
+// the dynamic types of interface{} values the translation distinguishes: Go type text -> constructor, payload
+type gdAnyType struct {
+	src, ctor string
+	ty       *gdT
+}
+
+var gdAnyTypes = []gdAnyType{
+	{"int", "gd_any_int", gdK("int")}, {"float64", "gd_any_float64", gdK("float")}, {"bool", "gd_any_bool", gdK("bool")},
+	{"string", "gd_any_string", gdK("string")}, {"[]int", "gd_any_ints", gdK("ints")}, {"[]float64", "gd_any_float64s", gdK("floats")},
+	{"[]string", "gd_any_strings", gdK("strings")}, {"[]interface{}", "gd_any_anys", gdK("anys")},
+	{"types.ColumnName", "gd_any_ColumnName", gdK("string")},
+	{"func(int) bool", "gd_any_func_int", gdK("fn1")}, {"func(float64) bool", "gd_any_func_float64", gdK("fn1")},
+	{"func(bool) bool", "gd_any_func_bool", gdK("fn1")}, {"func(*string) bool", "gd_any_func_pstring", gdK("fn1")},
+	{"func(int, int) bool", "gd_any_func2_int", gdK("fn2")}, {"func(float64, float64) bool", "gd_any_func2_float64", gdK("fn2")},
+	{"func(bool, bool) bool", "gd_any_func2_bool", gdK("fn2")}, {"func(*string, *string) bool", "gd_any_func2_pstring", gdK("fn2")},
+}
+
+// a pattern for the dynamic type src seen from package pkg on a scrutinee of type any or col: the constructor
+// pattern over the names vars (fields for a struct) and the payload type
+func gdTypePattern(pkg string, scrut *gdT, src string) (ctor string, ty *gdT, ok bool) {
+	if scrut.k == "any" {
+		if src == "nil" {
+			return "gd_any_nil", gdK("nil"), true
+		}
+		for _, a := range gdAnyTypes {
+			if a.src == src {
+				return a.ctor + " @", a.ty, true
+			}
+		}
+	}
+	ty = gdResolve(pkg, src)
+	if ty.k == "struct" && ty.name == "Column" || ty.k == "scol" {
+		p := ty.pkg
+		if ty.k == "scol" {
+			p = "internal/scolumn"
+		}
+		c := "gd_col_" + filepath.Base(p)
+		if scrut.k == "any" {
+			return "gd_any_col (" + c + " @)", ty, true
+		}
+		if scrut.k == "col" {
+			return c + " @", ty, true
+		}
+	}
+	return "", gdBad, false
+}
+
+// ------------------------------------------------------------------ translation state
+
+type gdVar struct {
+	name   string // Go name
+	ty     *gdT
+	coq    string   // Coq name (every type but struct)
+	fields []string // struct: the Coq names of the fields
+}
+
+type gdVal struct {
+	text   string // Coq text; a struct: its fields separated by blanks
+	ty     *gdT
+	fields []string
+}
+
+type gdFunc struct {
+	spec     gdSpec
+	fd       *ast.FuncDecl
+	coq      string
+	recv     *gdVar
+	params   []gdVar
+	results  []*gdT
+	fuel     bool
+	selfRec  bool
+	text     string
+	ok, done bool
+}
+
+var gdFuncs map[string]*gdFunc // by "pkg:Name"
+
+type gdCtx struct {
+	vars   []gdVar
+	inLoop bool // the continuation is the next iteration of a loop
+	depth  int  // enclosing early-exit blocks
+}
+
+type gdTr struct {
+	p      *pkgInfo
+	f      *gdFunc
+	bad    bool
+	ntmp   int
+	loops  []string
+	nloops int
+	used   map[string]bool
+}
+
+func (t *gdTr) fail(n ast.Node, format string, a ...interface{}) {
+	if !t.bad {
+		pos := ""
+		if n != nil {
+			pos = t.p.fset.Position(n.Pos()).String()
+			pos = strings.TrimPrefix(pos, repo+"/") + ": "
+		}
+		problem("filter dispatch translation of %s (%s): %s%s", t.f.spec.fn, t.f.spec.pkg, pos, fmt.Sprintf(format, a...))
+	}
+	t.bad = true
+}
+
+func (t *gdTr) src(n ast.Node) string { return gcSrc(t.p.fset, n) }
+
+func (t *gdTr) tmp() string {
+	t.ntmp++
+	return fmt.Sprintf("t%d", t.ntmp)
+}
+
+func (c gdCtx) lookup(name string) (gdVar, bool) {
+	for i := len(c.vars) - 1; i >= 0; i-- {
+		if c.vars[i].name == name {
+			return c.vars[i], true
+		}
+	}
+	return gdVar{}, false
+}
+
+func (t *gdTr) resolve(e ast.Expr) *gdT {
+	ty := gdResolve(t.f.spec.pkg, t.src(e))
+	if ty.k == "bad" {
+		t.fail(e, "type outside the scheme: %s", t.src(e))
+	}
+	return ty
+}
+
+// declare adds a variable; a name that is already visible gets a fresh Coq name
+func (t *gdTr) declare(c *gdCtx, name string, ty *gdT) gdVar {
+	if name == "_" {
+		v := gdVar{name: "_", ty: ty, coq: "_"}
+		if st := gdStructOf(ty); st != nil {
+			for range st.fields {
+				v.fields = append(v.fields, "_")
+			}
+		}
+		return v
+	}
+	base := "v_" + name
+	if t.used[base] {
+		for i := 1; ; i++ {
+			base = fmt.Sprintf("v_%s_%d", name, i)
+			if !t.used[base] {
+				break
+			}
+		}
+	}
+	t.used[base] = true
+	v := gdVar{name: name, ty: ty, coq: base}
+	if st := gdStructOf(ty); st != nil {
+		v.coq = ""
+		for _, f := range st.fields {
+			v.fields = append(v.fields, base+"_"+f.name)
+		}
+	}
+	c.vars = append(c.vars, v)
+	return v
+}
+
+func (v gdVar) names() []string {
+	if v.fields != nil {
+		return v.fields
+	}
+	return []string{v.coq}
+}
+
+func (v gdVar) val() gdVal {
+	if v.fields != nil {
+		return gdVal{strings.Join(v.fields, " "), v.ty, v.fields}
+	}
+	return gdVal{v.coq, v.ty, nil}
+}
+
+func gdStructVal(ty *gdT, fields []string) gdVal {
+	return gdVal{strings.Join(fields, " "), ty, fields}
+}
+
+// coerce checks that a value can stand where want is expected and gives its text there
+func (t *gdTr) coerce(n ast.Node, v gdVal, want *gdT) string {
+	have := v.ty
+	if have.k == "bad" || want.k == "bad" {
+		return v.text
+	}
+	if have.same(want) {
+		return v.text
+	}
+	if have.k == "nil" {
+		if z, ok := want.zero(); ok {
+			return z
+		}
+	}
+	colOf := func() (string, bool) {
+		switch {
+		case have.k == "col":
+			return v.text, true
+		case have.k == "struct" && have.name == "Column":
+			return "(gd_col_" + filepath.Base(have.pkg) + " " + v.text + ")", true
+		case have.k == "scol":
+			return "(gd_col_scolumn " + v.text + ")", true
+		}
+		return "", false
+	}
+	switch want.k {
+	case "col":
+		if x, ok := colOf(); ok {
+			return x
+		}
+	case "any":
+		if x, ok := colOf(); ok {
+			if have.k == "col" {
+				return "(gd_col_any " + x + ")"
+			}
+			return "(gd_any_col " + x + ")"
+		}
+		for _, a := range gdAnyTypes {
+			if a.ty.same(have) && a.ty.k != "fn1" && a.ty.k != "fn2" && a.src != "types.ColumnName" {
+				return "(" + a.ctor + " " + v.text + ")"
+			}
+		}
+	case "string":
+		if have.k == "kfun" {
+			return v.text
+		}
+	}
+	t.fail(n, "a value of type %s %s stands where %s %s is expected: %s", have.k, have.name, want.k, want.name, t.src(n))
+	return v.text
+}
+
+// ------------------------------------------------------------------ callees
+
+type gdCallee struct {
+	head    string // Coq text of the function (with fuel and receiver fields when it has them)
+	params  []*gdT
+	results []*gdT
+	pure    bool // a value, not an outcome
+}
+
+// the types a callee answers: its Go results followed by its parameters of type index.Bool
+func gdAnswer(results []*gdT, params []*gdT) []*gdT {
+	out := append([]*gdT{}, results...)
+	for _, p := range params {
+		if p.k == "bools" {
+			out = append(out, p)
+		}
+	}
+	return out
+}
+
+func gdAnswerType(results []*gdT, params []*gdT) string {
+	var parts []string
+	for _, r := range gdAnswer(results, params) {
+		parts = append(parts, r.coq())
+	}
+	return gdTypeTuple(parts)
+}
+
+func gdParamTypes(vs []gdVar) []*gdT {
+	var out []*gdT
+	for _, v := range vs {
+		out = append(out, v.ty)
+	}
+	return out
+}
+
+// gdFuncType resolves a Go function type of package pkg
+func gdFuncType(p *pkgInfo, pkg string, ft *ast.FuncType) (params, results []*gdT, ok bool) {
+	ok = true
+	get := func(fl *ast.FieldList) []*gdT {
+		var out []*gdT
+		if fl == nil {
+			return out
+		}
+		for _, f := range fl.List {
+			ty := gdResolve(pkg, gcSrc(p.fset, f.Type))
+			if ty.k == "bad" {
+				ok = false
+			}
+			n := len(f.Names)
+			if n == 0 {
+				n = 1
+			}
+			for i := 0; i < n; i++ {
+				out = append(out, ty)
+			}
+		}
+		return out
+	}
+	return get(ft.Params), get(ft.Results), ok
+}
+
+func gdArrow(pre []string, params, results []*gdT) string {
+	parts := append([]string{}, pre...)
+	for _, p := range params {
+		parts = append(parts, p.coq())
+	}
+	parts = append(parts, "outcome "+gdAnswerType(results, params))
+	return strings.Join(parts, " -> ")
+}
+
+// table variables of the column packages: by pkg:var
+type gdTable struct {
+	spec            tableSpec
+	params, results []*gdT
+	ok              bool
+}
+
+var gdTables map[string]*gdTable
+
+// kernel methods: by pkg:method
+var gdKernels map[string]*gdCallee
+
+// call emits the binding of a call and answers the values of the Go results
+func (t *gdTr) call(ce *ast.CallExpr, cl *gdCallee, c gdCtx, pre *[]string) []gdVal {
+	if len(ce.Args) != len(cl.params) {
+		t.fail(ce, "call with %d arguments of a function with %d parameters: %s", len(ce.Args), len(cl.params), t.src(ce))
+		return nil
+	}
+	parts := []string{cl.head}
+	var rebind []string
+	for i, a := range ce.Args {
+		v := t.expr(a, c, pre)
+		parts = append(parts, t.coerce(a, v, cl.params[i]))
+		if cl.params[i].k == "bools" {
+			id, ok := a.(*ast.Ident)
+			if !ok {
+				t.fail(a, "the index.Bool argument of a call must be a variable")
+				continue
+			}
+			w, _ := c.lookup(id.Name)
+			rebind = append(rebind, w.coq)
+		}
+	}
+	var out []gdVal
+	var pat []string
+	for _, r := range cl.results {
+		v := gdVal{t.tmp(), r, nil}
+		if st := gdStructOf(r); st != nil {
+			t.fail(ce, "a struct result is outside the scheme")
+			_ = st
+		}
+		pat = append(pat, v.text)
+		out = append(out, v)
+	}
+	pat = append(pat, rebind...)
+	text := strings.Join(parts, " ")
+	if cl.pure {
+		if len(pat) != 1 {
+			t.fail(ce, "pure callee with several results")
+		}
+		*pre = append(*pre, fmt.Sprintf("let %s := %s in", pat[0], text))
+		return out
+	}
+	if len(pat) == 0 {
+		pat = []string{"_"}
+	}
+	*pre = append(*pre, fmt.Sprintf("do %s <- %s;", gdTuple(pat), text))
+	return out
+}
+
+// calleeOf resolves the function a call expression calls (nil: not a call of this kind)
+func (t *gdTr) calleeOf(ce *ast.CallExpr, c gdCtx, pre *[]string) *gdCallee {
+	pkg := t.f.spec.pkg
+	fromFunc := func(g *gdFunc, recv []string) *gdCallee {
+		if !g.done {
+			if g == t.f && t.f.selfRec {
+				// the recursive call
+			} else {
+				t.fail(ce, "call of %s, which is not translated before this function", g.spec.fn)
+			}
+		}
+		head := g.coq
+		if g.fuel {
+			if g == t.f {
+				head += " fuel'"
+			} else {
+				head += " fuel"
+			}
+		}
+		if len(recv) > 0 {
+			head += " " + strings.Join(recv, " ")
+		}
+		return &gdCallee{head: head, params: gdParamTypes(g.params), results: g.results}
+	}
+	switch fn := ce.Fun.(type) {
+	case *ast.Ident:
+		if v, ok := c.lookup(fn.Name); ok {
+			if v.ty.k == "kfun" {
+				tb := gdTables[v.ty.pkg+":"+v.ty.name]
+				if tb == nil || !tb.ok {
+					t.fail(ce, "call of a value of an unknown table")
+					return nil
+				}
+				return &gdCallee{head: fmt.Sprintf("tbl_%s_%s %s", gdLetter(v.ty.pkg), v.ty.name, v.coq), params: tb.params, results: tb.results}
+			}
+			return nil
+		}
+		if g, ok := gdFuncs[pkg+":"+fn.Name]; ok {
+			return fromFunc(g, nil)
+		}
+	case *ast.SelectorExpr:
+		if id, ok := fn.X.(*ast.Ident); ok {
+			if v, ok := c.lookup(id.Name); ok {
+				// a method
+				if v.ty.k == "struct" && v.ty.name == "Column" || v.ty.k == "scol" {
+					p := v.ty.pkg
+					if v.ty.k == "scol" {
+						p = "internal/scolumn"
+					}
+					if g, ok := gdFuncs[p+":Column."+fn.Sel.Name]; ok {
+						return fromFunc(g, v.names())
+					}
+					if k, ok := gdKernels[p+":"+fn.Sel.Name]; ok {
+						cp := *k
+						cp.head += " " + strings.Join(v.names(), " ")
+						return &cp
+					}
+				}
+				if v.ty.k == "col" && fn.Sel.Name == "Filter" {
+					return &gdCallee{head: "gd_Column_Filter fuel " + v.coq, params: []*gdT{gdK("ids"), gdK("any"), gdK("any"), gdK("bools")}, results: []*gdT{gdK("err")}}
+				}
+				return nil
+			}
+			if id.Name == "qfstrings" && fn.Sel.Name == "InterfaceSliceToStringSlice" {
+				if g, ok := gdFuncs[gdStrPkg+":InterfaceSliceToStringSlice"]; ok {
+					return fromFunc(g, nil)
+				}
+			}
+			if id.Name == "index" && fn.Sel.Name == "NewBool" {
+				return &gdCallee{head: "gc_NewBool", params: []*gdT{gdK("int")}, results: []*gdT{gdK("bools")}}
+			}
+		}
+	}
+	return nil
+}
+
+// ------------------------------------------------------------------ expressions
+
+func gdStringLit(lit string) (string, bool) {
+	s, err := strconv.Unquote(lit)
+	return s, err == nil
+}
+
+func (t *gdTr) boolExpr(e ast.Expr, c gdCtx, pre *[]string) string {
+	v := t.expr(e, c, pre)
+	return t.coerce(e, v, gdK("bool"))
+}
+
+func (t *gdTr) expr(e ast.Expr, c gdCtx, pre *[]string) gdVal {
+	bad := gdVal{"0", gdBad, nil}
+	switch x := e.(type) {
+	case *ast.ParenExpr:
+		return t.expr(x.X, c, pre)
+	case *ast.BasicLit:
+		switch x.Kind {
+		case token.INT:
+			if strings.Trim(x.Value, "0123456789") == "" {
+				return gdVal{x.Value, gdK("int"), nil}
+			}
+		case token.STRING:
+			if s, ok := gdStringLit(x.Value); ok {
+				return gdVal{coqBytes(s), gdK("string"), nil}
+			}
+		}
+		t.fail(e, "literal outside the scheme: %s", x.Value)
+		return bad
+	case *ast.Ident:
+		switch x.Name {
+		case "nil":
+			return gdVal{"None", gdK("nil"), nil}
+		case "true", "false":
+			if _, shadowed := c.lookup(x.Name); !shadowed {
+				return gdVal{x.Name, gdK("bool"), nil}
+			}
+		}
+		v, ok := c.lookup(x.Name)
+		if !ok {
+			t.fail(e, "unknown identifier %s", x.Name)
+			return bad
+		}
+		return v.val()
+	case *ast.SelectorExpr:
+		if id, ok := x.X.(*ast.Ident); ok {
+			if v, ok := c.lookup(id.Name); ok {
+				if st := gdStructOf(v.ty); st != nil {
+					for i, f := range st.fields {
+						if f.name == x.Sel.Name {
+							return gdVal{v.fields[i], f.ty, nil}
+						}
+					}
+				}
+				switch {
+				case v.ty.k == "col" && x.Sel.Name == "Column":
+					return v.val()
+				case v.ty.k == "frame" && x.Sel.Name == "Err":
+					return gdVal{"(qf_Err " + v.coq + ")", gdK("err"), nil}
+				case v.ty.k == "frame" && x.Sel.Name == "index":
+					return gdVal{"(qf_index " + v.coq + ")", gdK("ids"), nil}
+				}
+				t.fail(e, "selector outside the scheme: %s", t.src(e))
+				return bad
+			}
+			if id.Name == "filter" {
+				if s, ok := stringOf(t.p, x); ok {
+					return gdVal{coqBytes(s), gdK("string"), nil}
+				}
+			}
+		}
+		t.fail(e, "selector outside the scheme: %s", t.src(e))
+		return bad
+	case *ast.UnaryExpr:
+		if x.Op == token.NOT {
+			return gdVal{"(negb " + t.boolExpr(x.X, c, pre) + ")", gdK("bool"), nil}
+		}
+	case *ast.BinaryExpr:
+		switch x.Op {
+		case token.LAND, token.LOR:
+			a := t.boolExpr(x.X, c, pre)
+			var preB []string
+			b := t.boolExpr(x.Y, c, &preB)
+			if len(preB) == 0 {
+				op := "andb"
+				if x.Op == token.LOR {
+					op = "orb"
+				}
+				return gdVal{fmt.Sprintf("(%s %s %s)", op, a, b), gdK("bool"), nil}
+			}
+			v := t.tmp()
+			inner := strings.Join(append(preB, "Ok "+b), " ")
+			if x.Op == token.LAND {
+				*pre = append(*pre, fmt.Sprintf("do %s <- (if %s then (%s) else Ok false);", v, a, inner))
+			} else {
+				*pre = append(*pre, fmt.Sprintf("do %s <- (if %s then Ok true else (%s));", v, a, inner))
+			}
+			return gdVal{v, gdK("bool"), nil}
+		case token.EQL, token.NEQ:
+			a := t.expr(x.X, c, pre)
+			b := t.expr(x.Y, c, pre)
+			var r string
+			switch {
+			case b.ty.k == "nil" && a.ty.k == "err":
+				r = "(gd_isnil " + a.text + ")"
+			case b.ty.k == "nil" && a.ty.k == "any":
+				r = "(gd_any_isnil " + a.text + ")"
+			case a.ty.k == "string" && b.ty.k == "string":
+				r = "(bytes_eqb " + a.text + " " + b.text + ")"
+			case a.ty.k == "int" && b.ty.k == "int":
+				r = "(" + a.text + " =? " + b.text + ")"
+			default:
+				t.fail(e, "comparison outside the scheme: %s", t.src(e))
+				return bad
+			}
+			if x.Op == token.NEQ {
+				r = "(negb " + r + ")"
+			}
+			return gdVal{r, gdK("bool"), nil}
+		}
+	case *ast.IndexExpr:
+		s := t.expr(x.X, c, pre)
+		i := t.expr(x.Index, c, pre)
+		it := t.coerce(x.Index, i, gdK("int"))
+		el := s.ty.elem()
+		if el == nil || gdStructOf(el) != nil {
+			t.fail(e, "index into something that is not a slice: %s", t.src(e))
+			return bad
+		}
+		v := t.tmp()
+		*pre = append(*pre, fmt.Sprintf("do %s <- gd_index %s %s;", v, s.text, it))
+		return gdVal{v, el, nil}
+	case *ast.CallExpr:
+		return t.callExpr(x, c, pre)
+	}
+	t.fail(e, "expression outside the scheme: %s", t.src(e))
+	return bad
+}
+
+func gdIsLenCall(e ast.Expr) (ast.Expr, bool) {
+	ce, ok := e.(*ast.CallExpr)
+	if !ok || len(ce.Args) != 1 {
+		return nil, false
+	}
+	if id, ok := ce.Fun.(*ast.Ident); ok && id.Name == "len" {
+		return ce.Args[0], true
+	}
+	return nil, false
+}
+
+func (t *gdTr) callExpr(x *ast.CallExpr, c gdCtx, pre *[]string) gdVal {
+	bad := gdVal{"0", gdBad, nil}
+	pkg := t.f.spec.pkg
+	fun := t.src(x.Fun)
+	one := func() (gdVal, bool) {
+		if len(x.Args) != 1 {
+			t.fail(x, "conversion / builtin with %d arguments", len(x.Args))
+			return bad, false
+		}
+		return t.expr(x.Args[0], c, pre), true
+	}
+	if id, ok := x.Fun.(*ast.Ident); ok {
+		if _, isVar := c.lookup(id.Name); !isVar {
+			switch id.Name {
+			case "len":
+				if a, ok := one(); ok && (a.ty.elem() != nil || a.ty.k == "iset") {
+					return gdVal{"(Z.of_nat (length " + a.text + "))", gdK("int"), nil}
+				}
+				t.fail(x, "len of something that is not a slice")
+				return bad
+			case "string":
+				if a, ok := one(); ok && a.ty.k == "string" {
+					return a
+				}
+			case "int":
+				if a, ok := one(); ok && a.ty.k == "float" {
+					return gdVal{"(ft_toint " + a.text + ")", gdK("int"), nil}
+				}
+			case "float64":
+				if a, ok := one(); ok && a.ty.k == "int" {
+					return gdVal{"(i_tofloat " + a.text + ")", gdK("float"), nil}
+				}
+			case "enumVal":
+				if a, ok := one(); ok && a.ty.k == "int" && pkg == "internal/ecolumn" {
+					return gdVal{"(gd_enumVal " + a.text + ")", gdK("enumval"), nil}
+				}
+			case "make":
+				if len(x.Args) == 2 {
+					ty := t.resolve(x.Args[0])
+					if arg, ok := gdIsLenCall(x.Args[1]); ok {
+						a := t.expr(arg, c, pre)
+						if ty.k == "iset" {
+							return gdVal{"(@nil Z)", ty, nil}
+						}
+						if el := ty.elem(); el != nil && gdStructOf(el) == nil && (a.ty.elem() != nil) {
+							if z, ok := el.zero(); ok {
+								return gdVal{"(repeat " + z + " (length " + a.text + "))", ty, nil}
+							}
+							if el.k == "float" {
+								return gdVal{"(repeat (i_tofloat 0) (length " + a.text + "))", ty, nil}
+							}
+						}
+					}
+				}
+				t.fail(x, "make outside the scheme (make(T, len(x))): %s", t.src(x))
+				return bad
+			}
+			if id.Name == "string" || id.Name == "int" || id.Name == "float64" || id.Name == "enumVal" {
+				t.fail(x, "conversion outside the scheme: %s", t.src(x))
+				return bad
+			}
+		}
+	}
+	switch fun {
+	case "math.IsNaN":
+		if a, ok := one(); ok && a.ty.k == "float" {
+			return gdVal{"(ft_isnan " + a.text + ")", gdK("bool"), nil}
+		}
+	case "qfstrings.NewStringSet":
+		if a, ok := one(); ok && a.ty.k == "strings" {
+			return gdVal{"(new_string_set " + a.text + ")", gdK("sset"), nil}
+		}
+	case "fcolumn.New":
+		if a, ok := one(); ok && a.ty.k == "floats" {
+			return gdStructVal(&gdT{k: "struct", pkg: "internal/fcolumn", name: "Column"}, []string{a.text})
+		}
+	case "qerrors.New":
+		if len(x.Args) >= 2 {
+			op := t.expr(x.Args[0], c, pre)
+			re := t.expr(x.Args[1], c, pre)
+			for _, a := range x.Args[2:] {
+				s := t.src(a)
+				ok := false
+				if id, isId := a.(*ast.Ident); isId {
+					_, ok = c.lookup(id.Name)
+				}
+				if ce, isCall := a.(*ast.CallExpr); isCall && t.src(ce.Fun) == "reflect.TypeOf" && len(ce.Args) == 1 {
+					if id, isId := ce.Args[0].(*ast.Ident); isId {
+						_, ok = c.lookup(id.Name)
+					}
+				}
+				if !ok {
+					t.fail(a, "a message parameter that is neither a variable nor reflect.TypeOf(variable): %s", s)
+				}
+			}
+			return gdVal{"(Some (new_error " + t.coerce(x.Args[0], op, gdK("string")) + " " + t.coerce(x.Args[1], re, gdK("string")) + "))", gdK("err"), nil}
+		}
+	case "qerrors.Propagate":
+		if len(x.Args) == 2 {
+			op := t.expr(x.Args[0], c, pre)
+			er := t.expr(x.Args[1], c, pre)
+			return gdVal{"(Some (propagate " + t.coerce(x.Args[0], op, gdK("string")) + " " + t.coerce(x.Args[1], er, gdK("err")) + "))", gdK("err"), nil}
+		}
+	case "fmt.Sprintf":
+		if len(x.Args) >= 1 {
+			f := t.expr(x.Args[0], c, pre)
+			var as []string
+			for _, a := range x.Args[1:] {
+				v := t.expr(a, c, pre)
+				as = append(as, t.coerce(a, v, gdK("string")))
+			}
+			return gdVal{"(sprintf " + t.coerce(x.Args[0], f, gdK("string")) + " [" + strings.Join(as, "; ") + "])", gdK("string"), nil}
+		}
+	}
+	// methods of the vocabulary
+	if sel, ok := x.Fun.(*ast.SelectorExpr); ok {
+		recv := t.src(sel.X)
+		isFrame := false
+		if id, ok := sel.X.(*ast.Ident); ok {
+			if v, ok := c.lookup(id.Name); ok && v.ty.k == "frame" {
+				isFrame = true
+			}
+		}
+		switch {
+		case isFrame && sel.Sel.Name == "withErr" && len(x.Args) == 1:
+			fr := t.expr(sel.X, c, pre)
+			a := t.expr(x.Args[0], c, pre)
+			return gdVal{"(qf_withErr " + fr.text + " " + t.coerce(x.Args[0], a, gdK("err")) + ")", gdK("frame"), nil}
+		case isFrame && sel.Sel.Name == "withIndex" && len(x.Args) == 1:
+			fr := t.expr(sel.X, c, pre)
+			a := t.expr(x.Args[0], c, pre)
+			return gdVal{"(qf_withIndex " + fr.text + " " + t.coerce(x.Args[0], a, gdK("ids")) + ")", gdK("frame"), nil}
+		case sel.Sel.Name == "Len" && len(x.Args) == 0:
+			r := t.expr(sel.X, c, pre)
+			if r.ty.k == "ids" || r.ty.k == "bools" {
+				return gdVal{"(Z.of_nat (length " + r.text + "))", gdK("int"), nil}
+			}
+		case sel.Sel.Name == "Filter" && len(x.Args) == 1:
+			var preR []string
+			r := t.expr(sel.X, c, &preR)
+			if r.ty.k == "ids" {
+				*pre = append(*pre, preR...)
+				a := t.expr(x.Args[0], c, pre)
+				v := t.tmp()
+				*pre = append(*pre, fmt.Sprintf("do %s <- gc_Int_Filter %s %s;", v, r.text, t.coerce(x.Args[0], a, gdK("bools"))))
+				return gdVal{v, gdK("ids"), nil}
+			}
+		}
+		_ = recv
+	}
+	if cl := t.calleeOf(x, c, pre); cl != nil {
+		if len(cl.results) != 1 {
+			t.fail(x, "a call with %d results used as a value: %s", len(cl.results), t.src(x))
+			return bad
+		}
+		out := t.call(x, cl, c, pre)
+		if len(out) == 1 {
+			return out[0]
+		}
+		return bad
+	}
+	t.fail(x, "call outside the scheme: %s", t.src(x))
+	return bad
+}
+
+// ------------------------------------------------------------------ statements
+
+func gdJoin(lines []string, last string) string {
+	return strings.Join(append(append([]string{}, lines...), last), "\n")
+}
+
+// the answer of the function at a return: the results followed by the index.Bool parameters
+func (t *gdTr) answer(vals []string, c gdCtx) string {
+	parts := append([]string{}, vals...)
+	for _, p := range t.f.params {
+		if p.ty.k == "bools" {
+			parts = append(parts, p.coq)
+		}
+	}
+	return gdTuple(parts)
+}
+
+func (t *gdTr) ret(v string, c gdCtx) string {
+	if c.depth > 0 {
+		return "Ok (inr " + v + ")"
+	}
+	return "Ok " + v
+}
+
+// assignedNames: Go names stored into inside the nodes (also as index.Bool argument of a call) and names declared
+func (t *gdTr) assignedNames(c gdCtx, nodes ...ast.Node) (assigned, declared map[string]bool) {
+	assigned, declared = map[string]bool{}, map[string]bool{}
+	for _, n := range nodes {
+		if n == nil {
+			continue
+		}
+		ast.Inspect(n, func(m ast.Node) bool {
+			switch s := m.(type) {
+			case *ast.AssignStmt:
+				for _, l := range s.Lhs {
+					if s.Tok == token.DEFINE {
+						declared[gcRootIdent(l)] = true
+					} else {
+						assigned[gcRootIdent(l)] = true
+					}
+				}
+			case *ast.IncDecStmt:
+				assigned[gcRootIdent(s.X)] = true
+			case *ast.RangeStmt:
+				if s.Key != nil {
+					declared[gcRootIdent(s.Key)] = true
+				}
+				if s.Value != nil {
+					declared[gcRootIdent(s.Value)] = true
+				}
+			case *ast.ValueSpec:
+				for _, id := range s.Names {
+					declared[id.Name] = true
+				}
+			case *ast.TypeSwitchStmt:
+				if as, ok := s.Assign.(*ast.AssignStmt); ok {
+					declared[gcRootIdent(as.Lhs[0])] = true
+				}
+			case *ast.CallExpr:
+				if id, ok := s.Fun.(*ast.Ident); ok && id.Name == "len" {
+					return true
+				}
+				if sel, ok := s.Fun.(*ast.SelectorExpr); ok && (sel.Sel.Name == "Len" || t.src(sel) == "index.NewBool") {
+					return true
+				}
+				for _, a := range s.Args {
+					if id, ok := a.(*ast.Ident); ok {
+						if v, ok := c.lookup(id.Name); ok && v.ty.k == "bools" {
+							assigned[id.Name] = true
+						}
+					}
+				}
+			}
+			return true
+		})
+	}
+	delete(declared, "_")
+	return
+}
+
+// assigned: the variables of c stored into inside the nodes, in context order
+func (t *gdTr) assigned(c gdCtx, nodes ...ast.Node) []gdVar {
+	as, _ := t.assignedNames(c, nodes...)
+	var out []gdVar
+	seen := map[string]bool{}
+	for i := len(c.vars) - 1; i >= 0; i-- {
+		v := c.vars[i]
+		if seen[v.name] {
+			continue
+		}
+		seen[v.name] = true
+		if as[v.name] {
+			out = append([]gdVar{v}, out...)
+		}
+	}
+	if as["*"] {
+		t.fail(nodes[0], "store through a pointer")
+	}
+	return out
+}
+
+func gdFlatNames(vs []gdVar) []string {
+	var out []string
+	for _, v := range vs {
+		out = append(out, v.names()...)
+	}
+	return out
+}
+
+// commaOk translates  v, ok := rhs  for a type assertion or a map index; handled = false when rhs is neither
+func (t *gdTr) commaOk(s *ast.AssignStmt, c *gdCtx, out *[]string) bool {
+	l0, ok0 := s.Lhs[0].(*ast.Ident)
+	l1, ok1 := s.Lhs[1].(*ast.Ident)
+	if !ok0 || !ok1 {
+		return false
+	}
+	pkg := t.f.spec.pkg
+	bind := func(ty *gdT, rhsOf func(names []string) string) {
+		v := t.declare(c, l0.Name, ty)
+		o := t.declare(c, l1.Name, gdK("bool"))
+		*out = append(*out, fmt.Sprintf("let '%s := %s in", gdTuple(append(append([]string{}, v.names()...), o.names()...)), rhsOf(v.names())))
+	}
+	switch r := s.Rhs[0].(type) {
+	case *ast.TypeAssertExpr:
+		if r.Type == nil {
+			return false
+		}
+		scrut := t.expr(r.X, *c, out)
+		pat, ty, ok := gdTypePattern(pkg, scrut.ty, t.src(r.Type))
+		if !ok || ty.k == "nil" {
+			t.fail(r, "type assertion outside the scheme: %s", t.src(r))
+			return true
+		}
+		var zeros []string
+		if gdStructOf(ty) != nil {
+			zeros, ok = gdStructZero(ty)
+		} else {
+			var z string
+			z, ok = ty.zero()
+			zeros = []string{z}
+		}
+		if !ok {
+			t.fail(r, "type assertion to a type without zero value in the scheme: %s", t.src(r))
+			return true
+		}
+		bind(ty, func(names []string) string {
+			var ys []string
+			for i := range names {
+				ys = append(ys, fmt.Sprintf("y%d", i+1))
+			}
+			p := strings.Replace(pat, "@", strings.Join(ys, " "), 1)
+			return fmt.Sprintf("(match %s with %s => %s | _ => %s end)", scrut.text, p,
+				gdTuple(append(append([]string{}, ys...), "true")), gdTuple(append(append([]string{}, zeros...), "false")))
+		})
+		return true
+	case *ast.IndexExpr:
+		if sel, ok := r.X.(*ast.SelectorExpr); ok && sel.Sel.Name == "columnsByName" {
+			fr := t.expr(sel.X, *c, out)
+			if fr.ty.k != "frame" {
+				t.fail(r, "columnsByName of something that is not a QFrame")
+				return true
+			}
+			k := t.expr(r.Index, *c, out)
+			kt := t.coerce(r.Index, k, gdK("string"))
+			bind(gdK("col"), func([]string) string {
+				return fmt.Sprintf("gd_lookup (qf_columnsByName %s %s) gd_col_nil", fr.text, kt)
+			})
+			return true
+		}
+		tpkg, tvar := pkg, t.src(r.X)
+		if tvar == "filter.Inverse" {
+			tpkg, tvar = "filter", "Inverse"
+		}
+		if tb, ok := gdTables[tpkg+":"+tvar]; ok {
+			k := t.expr(r.Index, *c, out)
+			kt := t.coerce(r.Index, k, gdK("string"))
+			ty := &gdT{k: "kfun", pkg: tpkg, name: tvar}
+			if tb.spec.valIsString {
+				ty = gdK("string")
+			}
+			bind(ty, func([]string) string {
+				return fmt.Sprintf("gd_lookup (gd_assoc %s %s) (@nil N)", kt, tb.spec.coqName)
+			})
+			return true
+		}
+		t.fail(r, "index with two results of something that is neither a comparator table nor columnsByName: %s", t.src(r))
+		return true
+	}
+	return false
+}
+
+// store translates an assignment of the value texts to a left side
+func (t *gdTr) store(st ast.Stmt, l ast.Expr, rhs ast.Expr, v gdVal, c *gdCtx, out *[]string) {
+	switch l := l.(type) {
+	case *ast.Ident:
+		if l.Name == "_" {
+			return
+		}
+		w, ok := c.lookup(l.Name)
+		if !ok {
+			t.fail(st, "store into an unknown variable %s", l.Name)
+			return
+		}
+		if w.fields != nil {
+			if !v.ty.same(w.ty) || len(v.fields) != len(w.fields) {
+				t.fail(st, "store of another type into the struct variable %s", l.Name)
+				return
+			}
+			for i, f := range w.fields {
+				*out = append(*out, fmt.Sprintf("let %s := %s in", f, v.fields[i]))
+			}
+			return
+		}
+		*out = append(*out, fmt.Sprintf("let %s := %s in", w.coq, t.coerce(rhs, v, w.ty)))
+	case *ast.SelectorExpr:
+		if id, ok := l.X.(*ast.Ident); ok {
+			if w, ok := c.lookup(id.Name); ok {
+				if w.ty.k == "col" && l.Sel.Name == "Column" {
+					*out = append(*out, fmt.Sprintf("let %s := %s in", w.coq, t.coerce(rhs, v, gdK("col"))))
+					return
+				}
+				if st2 := gdStructOf(w.ty); st2 != nil {
+					for i, f := range st2.fields {
+						if f.name == l.Sel.Name {
+							*out = append(*out, fmt.Sprintf("let %s := %s in", w.fields[i], t.coerce(rhs, v, f.ty)))
+							return
+						}
+					}
+				}
+			}
+		}
+		t.fail(st, "store into a selector outside the scheme: %s", t.src(l))
+	case *ast.IndexExpr:
+		if id, ok := l.X.(*ast.Ident); ok {
+			if w, ok := c.lookup(id.Name); ok {
+				if w.ty.k == "iset" {
+					if t.src(rhs) != "struct{}{}" {
+						t.fail(st, "store into a set of something that is not struct{}{}")
+					}
+					k := t.expr(l.Index, *c, out)
+					*out = append(*out, fmt.Sprintf("let %s := gd_set_add %s %s in", w.coq, w.coq, t.coerce(l.Index, k, gdK("int"))))
+					return
+				}
+				if el := w.ty.elem(); el != nil && gdStructOf(el) == nil {
+					i := t.expr(l.Index, *c, out)
+					*out = append(*out, fmt.Sprintf("do %s <- gd_update %s %s %s;", w.coq, w.coq, t.coerce(l.Index, i, gdK("int")), t.coerce(rhs, v, el)))
+					return
+				}
+			}
+		}
+		t.fail(st, "store into an index expression outside the scheme: %s", t.src(l))
+	default:
+		t.fail(st, "store outside the scheme: %s", t.src(l))
+	}
+}
+
+// simple translates a statement without control flow into lines that end in "in" or ";"
+func (t *gdTr) simple(st ast.Stmt, c *gdCtx) ([]string, bool) {
+	var out []string
+	switch s := st.(type) {
+	case *ast.AssignStmt:
+		if s.Tok != token.DEFINE && s.Tok != token.ASSIGN {
+			return nil, false
+		}
+		if len(s.Rhs) == 1 && len(s.Lhs) >= 2 {
+			if s.Tok == token.DEFINE && len(s.Lhs) == 2 && t.commaOk(s, c, &out) {
+				return out, true
+			}
+			ce, ok := s.Rhs[0].(*ast.CallExpr)
+			if !ok {
+				return nil, false
+			}
+			cl := t.calleeOf(ce, *c, &out)
+			if cl == nil || len(cl.results) != len(s.Lhs) {
+				t.fail(st, "a call whose results do not match the left side: %s", t.src(st))
+				return out, true
+			}
+			vals := t.call(ce, cl, *c, &out)
+			for i, l := range s.Lhs {
+				if i >= len(vals) {
+					break
+				}
+				if s.Tok == token.DEFINE {
+					id, ok := l.(*ast.Ident)
+					if !ok {
+						return nil, false
+					}
+					v := t.declare(c, id.Name, vals[i].ty)
+					if id.Name != "_" {
+						out = append(out, fmt.Sprintf("let %s := %s in", v.coq, vals[i].text))
+					}
+				} else {
+					t.store(st, l, ce, vals[i], c, &out)
+				}
+			}
+			return out, true
+		}
+		if len(s.Lhs) != len(s.Rhs) {
+			return nil, false
+		}
+		var vals []gdVal
+		if s.Tok == token.ASSIGN && len(s.Lhs) == 1 {
+			if ix, ok := s.Lhs[0].(*ast.IndexExpr); ok {
+				if id, ok := ix.X.(*ast.Ident); ok {
+					if w, ok := c.lookup(id.Name); ok && w.ty.k == "iset" {
+						t.store(st, s.Lhs[0], s.Rhs[0], gdVal{}, c, &out)
+						return out, true
+					}
+				}
+			}
+		}
+		for _, r := range s.Rhs {
+			if ce, ok := r.(*ast.CallExpr); ok {
+				if cl := t.calleeOf(ce, *c, &out); cl != nil && len(cl.results) == 0 {
+					t.fail(r, "a call without result used as a value")
+				}
+			}
+			vals = append(vals, t.expr(r, *c, &out))
+		}
+		for i, l := range s.Lhs {
+			for j := i + 1; j < len(vals); j++ {
+				for _, n := range gdFlatNames([]gdVar{}) {
+					_ = n
+				}
+				if id, ok := l.(*ast.Ident); ok {
+					if w, ok := c.lookup(id.Name); ok && s.Tok == token.ASSIGN {
+						for _, n := range w.names() {
+							if gsMentions(vals[j].text, n) {
+								t.fail(st, "a parallel assignment whose right side mentions an assigned name")
+							}
+						}
+					}
+				}
+			}
+			if s.Tok == token.DEFINE {
+				id, ok := l.(*ast.Ident)
+				if !ok {
+					return nil, false
+				}
+				ty := vals[i].ty
+				if ty.k == "nil" || ty.k == "bad" && !t.bad {
+					t.fail(st, "a declaration needs a typed value: %s", t.src(s.Rhs[i]))
+				}
+				v := t.declare(c, id.Name, ty)
+				if id.Name == "_" {
+					continue
+				}
+				if v.fields != nil {
+					for k, f := range v.fields {
+						out = append(out, fmt.Sprintf("let %s := %s in", f, vals[i].fields[k]))
+					}
+				} else {
+					out = append(out, fmt.Sprintf("let %s := %s in", v.coq, vals[i].text))
+				}
+			} else {
+				t.store(st, l, s.Rhs[i], vals[i], c, &out)
+			}
+		}
+		return out, true
+	case *ast.DeclStmt:
+		gd, ok := s.Decl.(*ast.GenDecl)
+		if !ok || gd.Tok != token.VAR {
+			return nil, false
+		}
+		for _, sp := range gd.Specs {
+			vs := sp.(*ast.ValueSpec)
+			if vs.Type == nil || len(vs.Values) != 0 {
+				return nil, false
+			}
+			ty := t.resolve(vs.Type)
+			z, ok := ty.zero()
+			if !ok {
+				t.fail(st, "var of a type without zero in the scheme")
+			}
+			for _, id := range vs.Names {
+				v := t.declare(c, id.Name, ty)
+				out = append(out, fmt.Sprintf("let %s := %s in", v.coq, z))
+			}
+		}
+		return out, true
+	case *ast.ExprStmt:
+		ce, ok := s.X.(*ast.CallExpr)
+		if !ok {
+			return nil, false
+		}
+		cl := t.calleeOf(ce, *c, &out)
+		if cl == nil {
+			t.fail(st, "call statement outside the scheme: %s", t.src(st))
+			return out, true
+		}
+		t.call(ce, cl, *c, &out)
+		return out, true
+	}
+	return nil, false
+}
+
+func gdContainsReturn(nodes ...ast.Node) bool {
+	found := false
+	for _, n := range nodes {
+		if n == nil {
+			continue
+		}
+		ast.Inspect(n, func(m ast.Node) bool {
+			if _, ok := m.(*ast.ReturnStmt); ok {
+				found = true
+			}
+			return !found
+		})
+	}
+	return found
+}
+
+// terminates: control never reaches the end of the list
+func gdTerminates(list []ast.Stmt) bool {
+	if len(list) == 0 {
+		return false
+	}
+	switch s := list[len(list)-1].(type) {
+	case *ast.ReturnStmt:
+		return true
+	case *ast.BlockStmt:
+		return gdTerminates(s.List)
+	case *ast.IfStmt:
+		els, ok := gcElse(s)
+		return ok && s.Else != nil && gdTerminates(s.Body.List) && gdTerminates(els)
+	case *ast.TypeSwitchStmt:
+		hasDefault := false
+		for _, cc := range s.Body.List {
+			cl := cc.(*ast.CaseClause)
+			if cl.List == nil {
+				hasDefault = true
+			}
+			if !gdTerminates(cl.Body) {
+				return false
+			}
+		}
+		return hasDefault
+	}
+	return false
+}
+
+func (t *gdTr) stmts(list []ast.Stmt, c gdCtx, k func(gdCtx) string) string {
+	if len(list) == 0 {
+		return k(c)
+	}
+	st, rest := list[0], list[1:]
+	cont := func(c2 gdCtx) string { return t.stmts(rest, c2, k) }
+	if lines, ok := t.simple(st, &c); ok {
+		return gdJoin(lines, cont(c))
+	}
+	switch x := st.(type) {
+	case *ast.ReturnStmt:
+		if len(rest) != 0 {
+			t.fail(st, "statements after return")
+		}
+		var pre []string
+		var vals []string
+		if len(x.Results) == 1 && len(t.f.results) > 1 {
+			ce, ok := x.Results[0].(*ast.CallExpr)
+			var cl *gdCallee
+			if ok {
+				cl = t.calleeOf(ce, c, &pre)
+			}
+			if cl == nil || len(cl.results) != len(t.f.results) {
+				t.fail(st, "return of a call whose results do not match")
+				return "Panic"
+			}
+			for i, v := range t.call(ce, cl, c, &pre) {
+				vals = append(vals, t.coerce(ce, v, t.f.results[i]))
+			}
+		} else {
+			if len(x.Results) != len(t.f.results) {
+				t.fail(st, "return with %d values in a function with %d results", len(x.Results), len(t.f.results))
+				return "Panic"
+			}
+			for i, r := range x.Results {
+				v := t.expr(r, c, &pre)
+				vals = append(vals, t.coerce(r, v, t.f.results[i]))
+			}
+		}
+		return gdJoin(pre, t.ret(t.answer(vals, c), c))
+	case *ast.IfStmt:
+		return t.ifStmt(x, c, cont)
+	case *ast.TypeSwitchStmt:
+		return t.typeSwitch(x, c, cont)
+	case *ast.RangeStmt:
+		return t.rangeStmt(x, c, cont)
+	case *ast.BlockStmt:
+		return t.stmts(x.List, c, func(c2 gdCtx) string { return cont(gdRestrict(c2, c)) })
+	}
+	t.fail(st, "statement outside the scheme: %s", strings.SplitN(t.src(st), "\n", 2)[0])
+	return "Panic"
+}
+
+// leaving a block: the variables declared inside are forgotten (their Coq names stay reserved)
+func gdRestrict(inner, outer gdCtx) gdCtx { return outer }
+
+type gdBranch struct {
+	head string // "| pattern =>", "then", "else"
+	body []ast.Stmt
+	ctx  gdCtx
+}
+
+// branches translates a construct with several branches (if: 2, type switch: n) in front of cont
+func (t *gdTr) branches(n ast.Node, pre []string, open string, brs []gdBranch, close string, c gdCtx, cont func(gdCtx) string) string {
+	var nodes []ast.Node
+	falls := 0
+	for _, b := range brs {
+		for _, s := range b.body {
+			nodes = append(nodes, s)
+		}
+		if !gdTerminates(b.body) {
+			falls++
+		}
+	}
+	render := func(texts []string) string {
+		var sb strings.Builder
+		sb.WriteString(open)
+		for i, b := range brs {
+			sb.WriteString("\n" + b.head + "\n" + gsIndent(texts[i]))
+		}
+		sb.WriteString(close)
+		return sb.String()
+	}
+	if gdContainsReturn(nodes...) && falls <= 1 {
+		back := func(c2 gdCtx) string { return cont(gdRestrict(c2, c)) }
+		var texts []string
+		for _, b := range brs {
+			texts = append(texts, t.stmts(b.body, b.ctx, back))
+		}
+		return gdJoin(pre, render(texts))
+	}
+	res := t.assigned(c, nodes...)
+	names := gdFlatNames(res)
+	if gdContainsReturn(nodes...) {
+		// several branches fall through: early exit as a sum
+		var texts []string
+		for _, b := range brs {
+			bc := b.ctx
+			bc.depth = c.depth + 1
+			texts = append(texts, t.stmts(b.body, bc, func(gdCtx) string { return "Ok (inl " + gdTuple(names) + ")" }))
+		}
+		r := t.tmp()
+		rv := t.tmp()
+		outer := "Ok " + rv
+		if c.depth > 0 {
+			outer = "Ok (inr " + rv + ")"
+		}
+		return gdJoin(pre, fmt.Sprintf("do %s <- (\n%s);\nmatch %s with\n| inr %s => %s\n| inl %s =>\n%s\nend", r, gsIndent(render(texts)), r, rv, outer, gdTuple(names), gsIndent(cont(c))))
+	}
+	if len(res) == 0 {
+		t.fail(n, "a branching statement without return that stores into no outer variable")
+	}
+	var texts []string
+	for _, b := range brs {
+		texts = append(texts, t.stmts(b.body, b.ctx, func(gdCtx) string { return "Ok " + gdTuple(names) }))
+	}
+	return gdJoin(pre, fmt.Sprintf("do %s <- (\n%s);\n%s", gdTuple(names), gsIndent(render(texts)), cont(c)))
+}
+
+func (t *gdTr) ifStmt(x *ast.IfStmt, c gdCtx, cont func(gdCtx) string) string {
+	els, ok := gcElse(x)
+	if !ok {
+		t.fail(x, "else outside the scheme")
+		return "Panic"
+	}
+	var pre []string
+	inner := c
+	if x.Init != nil {
+		lines, ok := t.simple(x.Init, &inner)
+		if !ok {
+			t.fail(x, "if with an init statement outside the scheme")
+			return "Panic"
+		}
+		pre = append(pre, lines...)
+	}
+	cond := t.boolExpr(x.Cond, inner, &pre)
+	brs := []gdBranch{{"then", x.Body.List, inner}, {"else", els, inner}}
+	return t.branches(x, pre, "if "+cond, brs, "", c, cont)
+}
+
+func (t *gdTr) typeSwitch(x *ast.TypeSwitchStmt, c gdCtx, cont func(gdCtx) string) string {
+	if x.Init != nil {
+		t.fail(x, "type switch with an init statement")
+		return "Panic"
+	}
+	var pre []string
+	var scrutE ast.Expr
+	bound := ""
+	switch a := x.Assign.(type) {
+	case *ast.AssignStmt:
+		if len(a.Lhs) == 1 && len(a.Rhs) == 1 {
+			if id, ok := a.Lhs[0].(*ast.Ident); ok {
+				bound = id.Name
+			}
+			if ta, ok := a.Rhs[0].(*ast.TypeAssertExpr); ok && ta.Type == nil {
+				scrutE = ta.X
+			}
+		}
+	case *ast.ExprStmt:
+		if ta, ok := a.X.(*ast.TypeAssertExpr); ok && ta.Type == nil {
+			scrutE = ta.X
+		}
+	}
+	if scrutE == nil {
+		t.fail(x, "type switch outside the scheme")
+		return "Panic"
+	}
+	scrut := t.expr(scrutE, c, &pre)
+	if scrut.ty.k != "any" {
+		t.fail(x, "type switch on something that is not an interface{}")
+		return "Panic"
+	}
+	var brs []gdBranch
+	var def *gdBranch
+	for _, cc := range x.Body.List {
+		cl := cc.(*ast.CaseClause)
+		bc := c
+		if cl.List == nil {
+			if bound != "" {
+				bc.vars = append(append([]gdVar{}, c.vars...), gdVar{name: bound, ty: gdK("any"), coq: scrut.text})
+			}
+			def = &gdBranch{"| _ =>", cl.Body, bc}
+			continue
+		}
+		if len(cl.List) != 1 {
+			t.fail(cl, "a case with several types")
+			continue
+		}
+		pat, ty, ok := gdTypePattern(t.f.spec.pkg, scrut.ty, t.src(cl.List[0]))
+		if !ok {
+			t.fail(cl, "case type outside the scheme: %s", t.src(cl.List[0]))
+			continue
+		}
+		if ty.k == "nil" {
+			if bound != "" {
+				bc.vars = append(append([]gdVar{}, c.vars...), gdVar{name: bound, ty: gdK("any"), coq: scrut.text})
+			}
+			brs = append(brs, gdBranch{"| " + pat + " =>", cl.Body, bc})
+			continue
+		}
+		name := bound
+		if name == "" {
+			name = "_"
+		}
+		bc.vars = append([]gdVar{}, c.vars...)
+		v := t.declare(&bc, name, ty)
+		brs = append(brs, gdBranch{"| " + strings.Replace(pat, "@", strings.Join(v.names(), " "), 1) + " =>", cl.Body, bc})
+	}
+	if def == nil {
+		def = &gdBranch{"| _ =>", nil, c}
+	}
+	brs = append(brs, *def)
+	return t.branches(x, pre, "match "+scrut.text+" with", brs, "\nend", c, cont)
+}
+
+// every variable of the context once (the latest declaration of a name), structs expanded into their fields
+type gdFlat struct {
+	coq string
+	ty  *gdT
+}
+
+func gdFlatVars(c gdCtx) []gdFlat {
+	var out []gdFlat
+	seen := map[string]bool{}
+	for i := len(c.vars) - 1; i >= 0; i-- {
+		v := c.vars[i]
+		if seen[v.name] {
+			continue
+		}
+		seen[v.name] = true
+		if st := gdStructOf(v.ty); st != nil {
+			var fs []gdFlat
+			for j, f := range st.fields {
+				fs = append(fs, gdFlat{v.fields[j], f.ty})
+			}
+			out = append(fs, out...)
+			continue
+		}
+		out = append([]gdFlat{{v.coq, v.ty}}, out...)
+	}
+	return out
+}
+
+func (t *gdTr) rangeStmt(x *ast.RangeStmt, c gdCtx, cont func(gdCtx) string) string {
+	if x.Tok != token.DEFINE {
+		t.fail(x, "range without :=")
+		return "Panic"
+	}
+	var pre []string
+	xs := t.expr(x.X, c, &pre)
+	el := xs.ty.elem()
+	if el == nil {
+		t.fail(x, "range over something that is not a slice: %s", t.src(x.X))
+		return "Panic"
+	}
+	hasRet := gdContainsReturn(x.Body)
+	if hasRet && (c.inLoop || c.depth > 0) {
+		t.fail(x, "a loop with a return inside that is nested in a loop or in a block with early exit")
+	}
+	body := c
+	body.vars = append([]gdVar{}, c.vars...)
+	body.inLoop = true
+	body.depth = 0
+	as, _ := t.assignedNames(c, x.Body)
+	stores := false
+	if id, ok := x.X.(*ast.Ident); ok && as[id.Name] {
+		stores = true
+	}
+	ident := func(n ast.Expr) string {
+		id, ok := n.(*ast.Ident)
+		if !ok {
+			t.fail(x, "range variable that is not an identifier")
+			return "_"
+		}
+		return id.Name
+	}
+	keyName := ""
+	if x.Key != nil {
+		if n := ident(x.Key); n != "_" {
+			keyName = t.declare(&body, n, gdK("int")).coq
+		}
+	}
+	valPat := "_"
+	var head []string
+	if x.Value != nil {
+		if n := ident(x.Value); n != "_" {
+			v := t.declare(&body, n, el)
+			switch {
+			case stores:
+				if gdStructOf(el) != nil {
+					t.fail(x, "range by value over a slice of structs that the body stores into")
+				}
+				if keyName == "" {
+					keyName = "i" + t.tmp()
+				}
+				head = append(head, fmt.Sprintf("do %s <- gd_index %s %s;", v.coq, xs.text, keyName))
+			case gdStructOf(el) != nil:
+				valPat = "x" + t.tmp()
+				head = append(head, fmt.Sprintf("let '(gd_mk_%s %s) := %s in", el.name, strings.Join(v.fields, " "), valPat))
+			default:
+				valPat = v.coq
+			}
+		}
+	}
+	res := t.assigned(c, x.Body)
+	const hole = "@LOOPARGS@"
+	bodyText := gdJoin(head, t.stmts(x.Body.List, body, func(gdCtx) string {
+		call := "loop l'"
+		if keyName != "" {
+			call += " (" + keyName + " + 1)"
+		}
+		return call + hole
+	}))
+	var exit, rty string
+	if hasRet {
+		exit = cont(c)
+		rty = gdAnswerType(t.f.results, gdParamTypes(t.f.params))
+	} else {
+		exit = "Ok " + gdTuple(gdFlatNames(res))
+		var tys []string
+		for _, v := range res {
+			if st := gdStructOf(v.ty); st != nil {
+				for _, f := range st.fields {
+					tys = append(tys, f.ty.coq())
+				}
+			} else {
+				tys = append(tys, v.ty.coq())
+			}
+		}
+		rty = gdTypeTuple(tys)
+	}
+	isRes := map[string]bool{}
+	for _, n := range gdFlatNames(res) {
+		isRes[n] = true
+	}
+	args, sig, tys := "", "", ""
+	if gsMentions(bodyText, "fuel") || gsMentions(exit, "fuel") {
+		args, sig, tys = " fuel", " (fuel : nat)", "nat -> "
+	}
+	if gsMentions(bodyText, "fuel'") || gsMentions(exit, "fuel'") {
+		t.fail(x, "a recursive call inside a loop")
+	}
+	for _, v := range gdFlatVars(c) {
+		if isRes[v.coq] || gsMentions(bodyText, v.coq) || gsMentions(exit, v.coq) {
+			args += " " + v.coq
+			sig += fmt.Sprintf(" (%s : %s)", v.coq, v.ty.coq())
+			tys += v.ty.coq() + " -> "
+		}
+	}
+	bodyText = strings.ReplaceAll(bodyText, hole, args)
+	t.nloops++
+	name := fmt.Sprintf("%s_loop%d", t.f.coq, t.nloops)
+	keySig, keyTy, keyArg := "", "", ""
+	if keyName != "" {
+		keySig, keyTy, keyArg = " ("+keyName+" : Z)", "Z -> ", " 0"
+	}
+	elTy := el.coq()
+	if gdStructOf(el) != nil {
+		elTy = "gd_" + el.name
+	}
+	var b strings.Builder
+	fmt.Fprintf(&b, "Definition %s : list %s -> %s%soutcome %s :=\n", name, elTy, keyTy, tys, rty)
+	fmt.Fprintf(&b, "  fix loop (l : list %s)%s%s {struct l} : outcome %s :=\n", elTy, keySig, sig, rty)
+	fmt.Fprintf(&b, "  match l with\n  | [] =>\n%s\n  | %s :: l' =>\n%s\n  end.\n", gsIndent(gsIndent(exit)), valPat, gsIndent(gsIndent(bodyText)))
+	t.loops = append(t.loops, b.String())
+	call := name + " " + xs.text + keyArg + args
+	if hasRet {
+		return gdJoin(pre, call)
+	}
+	return gdJoin(pre, fmt.Sprintf("do %s <- %s;\n%s", gdTuple(gdFlatNames(res)), call, cont(c)))
+}
+
+// ------------------------------------------------------------------ functions
+
+func gdCoqName(sp gdSpec) string {
+	n := strings.ReplaceAll(sp.fn, ".", "_")
+	switch sp.pkg {
+	case gdRoot, gdStrPkg:
+		return "gd_" + n
+	}
+	return "gd_" + gdLetter(sp.pkg) + "_" + n
+}
+
+func gdFindType(p *pkgInfo, name string) ast.Expr {
+	for _, f := range p.files {
+		for _, d := range f.Decls {
+			if gd, ok := d.(*ast.GenDecl); ok && gd.Tok == token.TYPE {
+				for _, s := range gd.Specs {
+					if ts := s.(*ast.TypeSpec); ts.Name.Name == name {
+						return ts.Type
+					}
+				}
+			}
+		}
+	}
+	return nil
+}
+
+func gdLoadStruct(pkg, name string) bool {
+	p := loadPkg(pkg)
+	st, ok := gdFindType(p, name).(*ast.StructType)
+	if !ok {
+		problem("filter dispatch translation: struct %s not found in %s", name, pkg)
+		return false
+	}
+	s := &gdStruct{pkg: pkg, name: name}
+	good := true
+	for _, fl := range st.Fields.List {
+		ty := gdResolve(pkg, gcSrc(p.fset, fl.Type))
+		if ty.k == "bad" || len(fl.Names) == 0 {
+			problem("filter dispatch translation: field of %s.%s has a type outside the scheme: %s", pkg, name, gcSrc(p.fset, fl.Type))
+			good = false
+			continue
+		}
+		for _, n := range fl.Names {
+			s.fields = append(s.fields, gdField{n.Name, ty})
+		}
+	}
+	gdStructs[pkg+":"+name] = s
+	return good
+}
+
+func gdSignature(p *pkgInfo, f *gdFunc) bool {
+	t := &gdTr{p: p, f: f, used: map[string]bool{}}
+	fd := f.fd
+	mk := func(name string, ty *gdT) gdVar {
+		c := gdCtx{}
+		return t.declare(&c, name, ty)
+	}
+	if fd.Recv != nil {
+		if len(fd.Recv.List) != 1 || len(fd.Recv.List[0].Names) != 1 {
+			t.fail(fd, "receiver outside the scheme")
+			return false
+		}
+		v := mk(fd.Recv.List[0].Names[0].Name, t.resolve(fd.Recv.List[0].Type))
+		f.recv = &v
+	}
+	for _, fl := range fd.Type.Params.List {
+		ty := t.resolve(fl.Type)
+		if len(fl.Names) == 0 {
+			t.fail(fd, "parameter without name")
+		}
+		for _, n := range fl.Names {
+			f.params = append(f.params, mk(n.Name, ty))
+		}
+	}
+	if fd.Type.Results != nil {
+		for _, fl := range fd.Type.Results.List {
+			if len(fl.Names) != 0 {
+				t.fail(fd, "named results")
+			}
+			f.results = append(f.results, t.resolve(fl.Type))
+		}
+	}
+	if len(f.results) == 0 {
+		t.fail(fd, "a function without result")
+	}
+	return !t.bad
+}
+
+func gdTranslate(p *pkgInfo, f *gdFunc) {
+	t := &gdTr{p: p, f: f, used: map[string]bool{}}
+	c := gdCtx{}
+	var sig []string
+	add := func(v gdVar) {
+		c.vars = append(c.vars, v)
+		for _, n := range v.names() {
+			t.used[n] = true
+		}
+		for _, fl := range gdFlatVars(gdCtx{vars: []gdVar{v}}) {
+			sig = append(sig, fmt.Sprintf("(%s : %s)", fl.coq, fl.ty.coq()))
+		}
+	}
+	if f.recv != nil {
+		add(*f.recv)
+	}
+	for _, v := range f.params {
+		add(v)
+	}
+	body := t.stmts(f.fd.Body.List, c, func(gdCtx) string {
+		t.fail(f.fd, "the function can fall off its end")
+		return "Panic"
+	})
+	var b strings.Builder
+	pk := f.spec.pkg
+	if pk == gdRoot {
+		pk = "qframe"
+	}
+	fmt.Fprintf(&b, "(* %s\n%s *)\n", pk, gcSource(p, f.fd))
+	for _, l := range t.loops {
+		if gsMentions(l, "fuel'") {
+			t.fail(f.fd, "a recursive call inside a loop")
+		}
+		b.WriteString(l)
+	}
+	rty := gdAnswerType(f.results, gdParamTypes(f.params))
+	switch {
+	case f.selfRec:
+		fmt.Fprintf(&b, "Fixpoint %s (fuel : nat) %s {struct fuel} : outcome %s :=\n  match fuel with\n  | O => Panic\n  | S fuel' =>\n%s\n  end.\n", f.coq, strings.Join(sig, " "), rty, gsIndent(gsIndent(body)))
+	case f.fuel:
+		fmt.Fprintf(&b, "Definition %s (fuel : nat) %s : outcome %s :=\n%s.\n", f.coq, strings.Join(sig, " "), rty, gsIndent(body))
+	default:
+		fmt.Fprintf(&b, "Definition %s %s : outcome %s :=\n%s.\n", f.coq, strings.Join(sig, " "), rty, gsIndent(body))
+	}
+	f.text = b.String()
+	f.ok = !t.bad
+}
+
+// the names a function calls (last identifier of every call)
+func gdCalledNames(fd *ast.FuncDecl) map[string]bool {
+	out := map[string]bool{}
+	ast.Inspect(fd, func(n ast.Node) bool {
+		if ce, ok := n.(*ast.CallExpr); ok {
+			switch f := ce.Fun.(type) {
+			case *ast.Ident:
+				out[f.Name] = true
+			case *ast.SelectorExpr:
+				out[f.Sel.Name] = true
+			}
+		}
+		return true
+	})
+	return out
+}
+
+func gdComputeFuel() {
+	calls := map[*gdFunc][]*gdFunc{}
+	for _, f := range gdFuncs {
+		if f.fd == nil {
+			continue
+		}
+		for n := range gdCalledNames(f.fd) {
+			for _, g := range gdFuncs {
+				short := g.spec.fn[strings.LastIndex(g.spec.fn, ".")+1:]
+				if short != n {
+					continue
+				}
+				if g.spec.pkg == f.spec.pkg || g.spec.pkg == gdStrPkg || f.spec.pkg == gdRoot {
+					calls[f] = append(calls[f], g)
+					if g == f {
+						f.selfRec, f.fuel = true, true
+					}
+				}
+			}
+		}
+	}
+	for changed := true; changed; {
+		changed = false
+		for f, gs := range calls {
+			for _, g := range gs {
+				if g.fuel && !f.fuel {
+					f.fuel, changed = true, true
+				}
+			}
+		}
+	}
+}
+
+const gdPreamble = `(* GENERATED by tools/qf2coq (filterdisp.go) from qframe.go (QFrame.filter, isOrderComparator, unknownCol),
+   internal/strings/convert.go (InterfaceSliceToStringSlice) and internal/{i,f,b,s,e}column/column.go (Filter,
+   filterBuiltIn and their helpers) of tobgu/qframe — do not edit.
+   One definition gd_<function> per translated Go function and one Definition gd_<function>_loopN per loop; the
+   scheme is described at the top of tools/qf2coq/filterdisp.go.  The loop kernels are the boundary: a comparator
+   table is the association list of Gen/GenTables.v, calling an entry is the variable tbl_<pkg>_<table> name args,
+   the kernel methods are the variables k_<pkg>_<method>.  Every function answers outcome (results, final contents
+   of its index.Bool arguments); Panic = Go panic.  newIntSet is recursive: Fixpoint on fuel (O => Panic); the
+   functions that reach it hand fuel on unchanged.  F = QFrame, A = row id, E = error value, FT = float64,
+   SC = scolumn.Column, SS = StringSet, BS = *bitset, FN1 / FN2 = the custom predicates are abstract. *)
+From QF Require Import Base.Prelude Gen.GenTables Gen.GenFilterClause.
+Local Open Scope Z_scope.
+
+(* s[i], s[i] = v *)
+Definition gd_index {T : Type} (s : list T) (i : Z) : outcome T :=
+  if i <? 0 then Panic else idx s (Z.to_nat i).
+Definition gd_update {T : Type} (s : list T) (i : Z) (v : T) : outcome (list T) :=
+  if i <? 0 then Panic else do _ <- idx s (Z.to_nat i); Ok (set_nth s (Z.to_nat i) v).
+(* err == nil *)
+Definition gd_isnil {T : Type} (p : option T) : bool := match p with None => true | Some _ => false end.
+(* v, ok := m[k] : a map literal is its association list; the zero value for a missing key *)
+Fixpoint gd_assoc {V : Type} (k : bytes) (t : list (bytes * V)) : option V :=
+  match t with
+  | [] => None
+  | (n, v) :: rest => if bytes_eqb n k then Some v else gd_assoc k rest
+  end.
+Definition gd_lookup {T : Type} (o : option T) (zero : T) : T * bool :=
+  match o with Some v => (v, true) | None => (zero, false) end.
+(* s[k] = struct{}{} on a map[int]struct{}: the keys in insertion order *)
+Definition gd_set_add (s : list Z) (k : Z) : list Z := s ++ [k].
+(* enumVal(i): uint8 *)
+Definition gd_enumVal (i : Z) : N := Z.to_N (i mod 256).
+
+Section GenFilterDispatch.
+Context {A E FT SC SS BS FN1 FN2 F : Type}.
+
+`
+
+func gdTypesBlock() (string, bool) {
+	ok := true
+	var b strings.Builder
+	b.WriteString("(* column.Column: the five column types (a struct as its fields); gd_col_nil = the nil interface *)\n")
+	b.WriteString("Inductive gd_column : Type :=\n| gd_col_nil\n")
+	for _, cp := range gdColPkgs {
+		fmt.Fprintf(&b, "| gd_col_%s", filepath.Base(cp))
+		if cp == "internal/scolumn" {
+			b.WriteString(" (c : SC)")
+		} else if st := gdStructs[cp+":Column"]; st != nil {
+			for _, f := range st.fields {
+				fmt.Fprintf(&b, " (%s : %s)", f.name, f.ty.coq())
+			}
+		} else {
+			ok = false
+		}
+		b.WriteString("\n")
+	}
+	s := strings.TrimRight(b.String(), "\n") + ".\n\n"
+	b.Reset()
+	b.WriteString("(* interface{}: the dynamic types the translated code distinguishes; gd_any_other = any other type *)\n")
+	b.WriteString("Inductive gd_any : Type :=\n| gd_any_nil\n")
+	for _, a := range gdAnyTypes {
+		fmt.Fprintf(&b, "| %s (x : %s)  (* %s *)\n", a.ctor, a.ty.coq(), strings.ReplaceAll(a.src, "(*", "( *"))
+	}
+	b.WriteString("| gd_any_col (c : gd_column)\n| gd_any_other.\n\n")
+	b.WriteString("Definition gd_any_isnil (x : gd_any) : bool := match x with gd_any_nil => true | _ => false end.\n")
+	b.WriteString("(* a column.Column stored into an interface{} *)\n")
+	b.WriteString("Definition gd_col_any (c : gd_column) : gd_any := match c with gd_col_nil => gd_any_nil | _ => gd_any_col c end.\n\n")
+	s += b.String()
+	b.Reset()
+	if st := gdStructs["filter:Filter"]; st != nil {
+		b.WriteString("(* filter.Filter *)\nRecord gd_Filter : Type := gd_mk_Filter {")
+		for i, f := range st.fields {
+			if i > 0 {
+				b.WriteString(";")
+			}
+			fmt.Fprintf(&b, " gd_%s : %s", f.name, f.ty.coq())
+		}
+		b.WriteString(" }.\n")
+	} else {
+		ok = false
+	}
+	return s + b.String(), ok
+}
+
+func gdVocabularyBlock() (string, bool) {
+	ok := true
+	var b strings.Builder
+	b.WriteString(`Variable new_error : bytes -> bytes -> E.            (* qerrors.New(operation, reason, ..) *)
+Variable propagate : bytes -> option E -> E.         (* qerrors.Propagate(operation, err) *)
+Variable sprintf : bytes -> list bytes -> bytes.     (* fmt.Sprintf(format, strings..) *)
+Variable ft_isnan : FT -> bool.                      (* math.IsNaN *)
+Variable ft_toint : FT -> Z.                         (* int(x) *)
+Variable i_tofloat : Z -> FT.                        (* float64(i) *)
+Variable new_string_set : list bytes -> SS.          (* qfstrings.NewStringSet *)
+Variable qf_Err : F -> option E.                     (* qf.Err *)
+Variable qf_index : F -> list A.                     (* qf.index *)
+Variable qf_withErr : F -> option E -> F.            (* qf.withErr(err) *)
+Variable qf_withIndex : F -> list A -> F.            (* qf.withIndex(ix) *)
+Variable qf_columnsByName : F -> bytes -> option gd_column.   (* qf.columnsByName[name] (the embedded Column) *)
+`)
+	b.WriteString("(* calling the entry of a comparator table: the function of that name applied to the arguments *)\n")
+	for _, ts := range tableSpecs {
+		tb := gdTables[ts.pkg+":"+ts.varName]
+		if tb == nil || tb.spec.valIsString {
+			continue
+		}
+		if !tb.ok {
+			ok = false
+			continue
+		}
+		fmt.Fprintf(&b, "Variable tbl_%s_%s : %s.\n", gdLetter(ts.pkg), ts.varName, gdArrow([]string{"bytes"}, tb.params, tb.results))
+	}
+	b.WriteString("(* the kernel methods of Column (receiver first) *)\n")
+	for _, cp := range gdColPkgs {
+		for _, m := range gdKernelMethods {
+			k := gdKernels[cp+":"+m]
+			if k == nil {
+				continue
+			}
+			var recv []string
+			if cp == "internal/scolumn" {
+				recv = []string{"SC"}
+			} else if st := gdStructs[cp+":Column"]; st != nil {
+				for _, f := range st.fields {
+					recv = append(recv, f.ty.coq())
+				}
+			}
+			fmt.Fprintf(&b, "Variable %s : %s.\n", k.head, gdArrow(recv, k.params, k.results))
+		}
+	}
+	return b.String(), ok
+}
+
+func gdDispatcher() (string, bool) {
+	ok := true
+	var b strings.Builder
+	b.WriteString("(* x.Filter(..) for x of the interface type column.Column: dynamic dispatch *)\n")
+	b.WriteString("Definition gd_Column_Filter (fuel : nat) (c : gd_column) (v_index : (list A)) (v_comparator : gd_any) (v_comparatee : gd_any) (v_bIndex : (list bool)) : outcome ((option E) * (list bool)) :=\n  match c with\n  | gd_col_nil => Panic\n")
+	for _, cp := range gdColPkgs {
+		g := gdFuncs[cp+":Column.Filter"]
+		if g == nil || g.text == "" || len(g.params) != 4 || len(g.results) != 1 {
+			ok = false
+			continue
+		}
+		var fs []string
+		if cp == "internal/scolumn" {
+			fs = []string{"c"}
+		} else if st := gdStructs[cp+":Column"]; st != nil {
+			for _, f := range st.fields {
+				fs = append(fs, f.name)
+			}
+		}
+		head := g.coq
+		if g.fuel {
+			head += " fuel"
+		}
+		fmt.Fprintf(&b, "  | gd_col_%s %s => %s %s v_index v_comparator v_comparatee v_bIndex\n", filepath.Base(cp), strings.Join(fs, " "), head, strings.Join(fs, " "))
+	}
+	b.WriteString("  end.\n")
+	return b.String(), ok
+}
+
+func genFilterDispatch() string {
+	gdFuncs = map[string]*gdFunc{}
+	gdStructs = map[string]*gdStruct{}
+	gdTables = map[string]*gdTable{}
+	gdKernels = map[string]*gdCallee{}
+	// the vocabulary
+	for _, v := range gdVocabulary {
+		vp := loadPkg(v.pkg)
+		fd, ok := vp.funcs[v.fn]
+		if !ok || fd.Body == nil {
+			problem("filter dispatch translation: %s not found in %s", v.fn, v.pkg)
+			continue
+		}
+		cp := *fd
+		cp.Doc = nil
+		if !strings.Contains(v.text, "{\n") {
+			cp.Body = nil
+		}
+		if gcSrc(vp.fset, &cp) != v.text {
+			problem("filter dispatch translation: %s of %s is not the text the fixed vocabulary of the translation stands for", v.fn, v.pkg)
+		}
+	}
+	for _, d := range gdTypeDecls {
+		vp := loadPkg(d.pkg)
+		e := gdFindType(vp, d.name)
+		if e == nil || gcSrc(vp.fset, e) != d.text {
+			problem("filter dispatch translation: type %s of %s is not the declaration the translation stands for", d.name, d.pkg)
+		}
+	}
+	typesOk := true
+	for _, cp := range gdColPkgs {
+		if cp != "internal/scolumn" {
+			typesOk = gdLoadStruct(cp, "Column") && typesOk
+		}
+	}
+	typesOk = gdLoadStruct("filter", "Filter") && typesOk
+	// tables
+	for _, ts := range tableSpecs {
+		isCol := false
+		for _, cp := range gdColPkgs {
+			if ts.pkg == cp && strings.Contains(ts.coqName, "_filter") {
+				isCol = true
+			}
+		}
+		if !isCol && !(ts.pkg == "filter" && ts.varName == "Inverse") {
+			continue
+		}
+		tb := &gdTable{spec: ts}
+		gdTables[ts.pkg+":"+ts.varName] = tb
+		p := loadPkg(ts.pkg)
+		cl, ok := p.vars[ts.varName].(*ast.CompositeLit)
+		if !ok {
+			problem("filter dispatch translation: table %s of %s not found", ts.varName, ts.pkg)
+			continue
+		}
+		mt, ok := cl.Type.(*ast.MapType)
+		if !ok || gcSrc(p.fset, mt.Key) != "string" {
+			problem("filter dispatch translation: table %s of %s is not a map from string", ts.varName, ts.pkg)
+			continue
+		}
+		if ts.valIsString {
+			tb.ok = gcSrc(p.fset, mt.Value) == "string"
+		} else if ft, ok := mt.Value.(*ast.FuncType); ok {
+			tb.params, tb.results, tb.ok = gdFuncType(p, ts.pkg, ft)
+		}
+		if !tb.ok {
+			problem("filter dispatch translation: the value type of table %s of %s is outside the scheme", ts.varName, ts.pkg)
+		}
+	}
+	// kernel methods
+	for _, cp := range gdColPkgs {
+		p := loadPkg(cp)
+		for _, m := range gdKernelMethods {
+			fd, ok := p.funcs["Column."+m]
+			if !ok {
+				continue
+			}
+			ps, rs, ok := gdFuncType(p, cp, fd.Type)
+			if !ok || fd.Recv == nil || gcSrc(p.fset, fd.Recv.List[0].Type) != "Column" {
+				problem("filter dispatch translation: the kernel method %s of %s has a signature outside the scheme", m, cp)
+				continue
+			}
+			gdKernels[cp+":"+m] = &gdCallee{head: fmt.Sprintf("k_%s_%s", gdLetter(cp), m), params: ps, results: rs}
+		}
+	}
+
+	golden := ""
+	if fl := flag.Lookup("golden"); fl != nil && fl.Value.String() != "" {
+		if gb, err := os.ReadFile(filepath.Join(fl.Value.String(), "GenFilterDispatch.v")); err == nil {
+			golden = string(gb)
+		}
+	}
+	var b strings.Builder
+	b.WriteString(gdPreamble)
+	block := func(name, text string, ok bool) {
+		if !ok {
+			old, found := gfGoldenBlock(golden, name)
+			if !found {
+				return
+			}
+			text = "(* FALLBACK " + name + ": not derivable from the current source; text of the last validated tree *)\n" + old
+		}
+		fmt.Fprintf(&b, "(* BEGIN %s *)\n%s(* END %s *)\n\n", name, text, name)
+	}
+	tyText, tyOk := gdTypesBlock()
+	block("gd_types", tyText, tyOk && typesOk)
+	vocText, vocOk := gdVocabularyBlock()
+	block("gd_vocabulary", vocText, vocOk)
+
+	var order []*gdFunc
+	for _, sp := range gdSpecs {
+		f := &gdFunc{spec: sp, coq: gdCoqName(sp)}
+		gdFuncs[sp.pkg+":"+sp.fn] = f
+		order = append(order, f)
+		p := loadPkg(sp.pkg)
+		fd, ok := p.funcs[sp.fn]
+		if !ok || fd.Body == nil {
+			problem("filter dispatch translation: function %s not found in %s", sp.fn, sp.pkg)
+			continue
+		}
+		f.fd = fd
+		if !gdSignature(p, f) {
+			f.fd = nil
+		}
+	}
+	gdComputeFuel()
+	dispatched := false
+	for _, f := range order {
+		if f.spec.pkg == gdRoot && !dispatched {
+			text, ok := gdDispatcher()
+			block("gd_Column_Filter", text, ok)
+			dispatched = true
+		}
+		if f.fd != nil {
+			gdTranslate(loadPkg(f.spec.pkg), f)
+		}
+		f.done = true
+		block(f.coq, f.text, f.ok)
+	}
+	b.WriteString("End GenFilterDispatch.\n")
+	return b.String()
+}
